@@ -1,3 +1,4 @@
 import TinyFlux.Audit.Tool
 import TinyFlux.Props.C01
+import TinyFlux.Props.C01State
 #audit TinyFlux.Props.C01
